@@ -423,6 +423,62 @@ def _kdf_agreement(out, facts, c, p):
            desc="%s: Tag::from(Ak, PAE)" % side.e.label)
 
 
+def buffer_layout(facts, body):
+    """Abstract evaluation of a RawPayload assembling function on symbolic byte strings P1, P2, (P3): returns
+    (ordered list of source names written contiguously from offset 0 to the end, engine ok?, detail)."""
+    from . import absint as A
+    from . import models as MD
+    I = A.Interp(facts, MD.MODELS)
+    st = A.State()
+    v = M.view(facts, body)
+    args = []
+    for i in range(1, v.nargs + 1):
+        ty = v.local_ty(i)
+        sq = A.Seq("P%d" % i, A.Aff.sym("len(P%d)" % i), kind="bytes")
+        if "PasetoNonce" in ty:
+            args.append(A.Ptr(st.new_cell(A.Struct("crate::core::key::paseto_nonce::PasetoNonce", None, {"key": sq}))))
+        else:
+            args.append(A.Ptr(st.new_cell(sq)))
+    outs = I.run(body, args, st)
+    layouts = []
+    for o in outs:
+        if o.kind != "return":
+            continue
+        r = I.resolve(o.state, o.value)
+        if isinstance(r, A.Struct) and r.variant == "Err":
+            continue
+        if isinstance(r, A.Struct) and r.variant == "Ok":
+            r = I.resolve(o.state, r.fields["0"])
+        if o.state.unmodelled or not isinstance(r, A.Seq) or "b64_of" not in r.attrs:
+            layouts.append((None, False, "result is %r (unmodelled %s)" % (r, o.state.unmodelled)))
+            continue
+        eng = "URL_SAFE_NO_PAD" in r.attrs.get("engine", "")
+        buf = r.attrs["b64_of"]
+        names = None
+        if isinstance(buf, A.Seq) and buf.chunks is not None:
+            names = [c[1] if c[0] == "seq" else repr(c) for c in buf.chunks]
+        elif isinstance(buf, A.Seq) and "writes" in buf.attrs:
+            ws = sorted(buf.attrs["writes"], key=lambda w: (len(w[0].terms), w[0].const))
+            pos = A.Aff(0)
+            names = []
+            okk = True
+            for a, b, src in buf.attrs["writes"]:
+                if a != pos or not isinstance(src, A.Seq) or b.sub(a) != src.length:
+                    okk = False
+                names.append(src.name if isinstance(src, A.Seq) else repr(src))
+                pos = b
+            if not okk or pos != buf.length:
+                layouts.append((names, False, "writes do not tile the buffer contiguously: %s of length %r" % ([(repr(a), repr(b)) for a, b, _ in buf.attrs["writes"]], buf.length)))
+                continue
+        layouts.append((names, eng, "engine %s" % r.attrs.get("engine")))
+    if not layouts:
+        return None, False, "no successful outcome"
+    first = layouts[0]
+    if any(l[0] != first[0] for l in layouts):
+        return None, False, "outcomes disagree: %s" % [l[0] for l in layouts]
+    return first
+
+
 def _producer_layout(out, facts, p):
     """C01.R1 / C08.R5 producer side: RawPayload(nonce, ciphertext, tag) in that order, each whole."""
     V = p.V
@@ -447,35 +503,9 @@ def _producer_layout(out, facts, p):
         _f(out, "C08.R5", False, p, "payload assembly body", "RawPayload body not found", rc[0][1]["ln"])
         return
     cv = M.view(facts, cb)
-    N = M.Normalizer(facts, keep=[])
-    rt = N.norm(cv.return_term())
-    encs = [x for x in rt.walk() if x.op == "call" and re.search(r"base64::engine::Engine::encode$", x.meta.get("tdef", ""))]
-    ok = False
-    detail = "no base64 encode of the assembled buffer"
-    if len(encs) == 1:
-        buf = encs[0].args[1]
-        parts = [m for m in buf.args[1:]] if buf.op == "mut" else []
-        srcs = []
-        for m in parts:
-            if m.op == "part":
-                srcs.append((m.args[0], m.args[1]))
-        want = [T("field", "key", (T("param", 1),)), T("param", 2), T("param", 3)]
-        got = [s2 for _, s2 in srcs]
-        ok = got == want
-        detail = "parts written: %s" % [M.show(x)[:40] for x in got]
-        if ok:
-            # ranges: [..len(n)], [len(n)..len(n)+len(c)], [total-len(t)..]
-            r0, r1, r2 = [r for r, _ in srcs]
-            ln_n = lambda x: is_len_of(x, lambda y: y == want[0])
-            ln_c = lambda x: is_len_of(x, lambda y: y == want[1])
-            ln_t = lambda x: is_len_of(x, lambda y: y == want[2])
-            e0 = M.mk_field(r0, "end")
-            s1, e1 = M.mk_field(r1, "start"), M.mk_field(r1, "end")
-            s2 = M.mk_field(r2, "start")
-            ok = bool("RangeTo" in str(r0.name) and ln_n(e0) and ln_n(s1) and e1.op == "binop" and e1.name == "Add" and ln_n(e1.args[0]) and ln_c(e1.args[1])
-                      and "RangeFrom" in str(r2.name) and s2.op == "binop" and s2.name == "Sub" and ln_t(s2.args[1]))
-            detail = "ranges %s" % [M.show(r)[:60] for r, _ in srcs]
-    _f(out, "C08.R5", ok, d, "nonce || ciphertext || tag", "the payload buffer must be nonce || ciphertext || tag written contiguously; %s" % detail, cb["line"], file=cv.file(),
+    names, eng, detail = buffer_layout(facts, cb)
+    ok = names == ["P1", "P2", "P3"] and eng
+    _f(out, "C08.R5", ok, d, "nonce || ciphertext || tag", "the payload buffer must be base64url(nonce || ciphertext || tag); abstract evaluation gives %s (%s)" % (names, detail), cb["line"], file=cv.file(),
        desc="%s: buffer = nonce || ciphertext || tag, base64url(no pad)" % M.short(d))
 
 
@@ -544,14 +574,10 @@ def _public_producer(out, facts, p):
     cb = facts.bodies.get(d)
     if cb is not None:
         cv = M.view(facts, cb)
-        N = M.Normalizer(facts, keep=[])
-        rt = N.norm(cv.return_term())
-        encs = [x for x in rt.walk() if x.op == "call" and re.search(r"base64::engine::Engine::encode$", x.meta.get("tdef", ""))]
-        ok = False
-        if len(encs) == 1:
-            buf = encs[0].args[1]
-            ok = buf.op == "mut" and buf.args[0] == T("param", 1) and len(buf.args) == 2 and buf.args[1].op == "call" and bool(re.search(r"extend_from_slice$", buf.args[1].name)) and buf.args[1].args[1] == T("param", 2)
-        _f(out, "C08.R5", ok, d, "message || signature", "RawPayload::<V, Public>::from must produce base64url(message || signature): %s" % M.show(rt)[:200], cb["line"], file=cv.file(), desc="RawPayload public: message || signature")
+        names, eng, detail = buffer_layout(facts, cb)
+        ok = names == ["P1", "P2"] and eng
+        _f(out, "C08.R5", ok, d, "message || signature", "RawPayload::<V, Public>::from must produce base64url(message || signature); abstract evaluation gives %s (%s)" % (names, detail), cb["line"], file=cv.file(),
+           desc="RawPayload public: message || signature")
 
 
 def _min_length_guard(out, facts, c):
@@ -718,33 +744,43 @@ def _nonce_rules(out, facts, entries, protos):
     else:
         b = rnd[0]
         v = M.view(facts, b)
-        N = M.Normalizer(facts, keep=[])
-        fills = v.find_calls(r"ring::rand::SecureRandom::fill$")
-        ok = False
-        detail = "expected exactly one SecureRandom::fill call, found %d" % len(fills)
+        # semantic: on every Ok outcome the returned key is, whole, the output of one SystemRandom fill; a failing fill yields Err
+        from . import absint as A
+        from . import models as MD
+        I = A.Interp(facts, MD.MODELS)
+        st0 = A.State()
+        st0.bounds["KEYSIZE"] = (1, 1 << 20)
+        outs = I.run(b, [], st0)
+        bad = []
+        n_ok = 0
+        for o in outs:
+            if o.kind != "return":
+                bad.append("path ends with %s" % o.kind)
+                continue
+            r = I.resolve(o.state, o.value)
+            failed = any(c == "rng fill fails" for c in o.state.cond)
+            if isinstance(r, A.Struct) and r.variant == "Ok":
+                if failed:
+                    bad.append("Ok is returned although the CSPRNG reported a failure")
+                    continue
+                n_ok += 1
+                key = I.resolve(o.state, r.fields["0"])
+                buf = MD.deref(I, o.state, key.fields.get("0")) if isinstance(key, A.Struct) else None
+                whole = isinstance(buf, A.Seq) and buf.attrs.get("random") and not buf.attrs.get("writes") and buf.length == A.Aff.sym("KEYSIZE")
+                if not whole:
+                    bad.append("the returned key bytes are %r, not one whole buffer filled by the CSPRNG" % (buf,))
+                if o.state.unmodelled:
+                    bad.append("unmodelled calls on the path: %s" % o.state.unmodelled)
+            elif isinstance(r, A.Struct) and r.variant == "Err":
+                if not failed:
+                    bad.append("Err without a CSPRNG failure")
+            else:
+                bad.append("returns %r" % (r,))
+        ok = not bad and n_ok >= 1
+        detail = "; ".join(bad)[:300] or "no Ok outcome"
         ln = b["line"]
-        if len(fills) == 1:
-            bi, t = fills[0]
-            ln = t["ln"]
-            rt = N.norm(v.return_term())
-            # Ok(Key(buf)) with buf = mut([0; KEYSIZE], fill(rng, self))  and the fill result `?`-checked
-            oks = [x for x in rt.walk() if x.op == "agg" and str(x.name).endswith("result::Result::Ok")]
-            buf = None
-            for o in oks:
-                k = o.args[0].args[0]
-                if k.op == "agg" and "keys::Key" in str(k.name):
-                    buf = k.args[0].args[0]
-            whole = buf is not None and buf.op == "mut" and buf.args[0].op == "repeat" and str(buf.args[0].name) == "KEYSIZE" and len(buf.args) == 2 and \
-                buf.args[1].op == "call" and bool(re.search(r"SecureRandom>::fill$|SecureRandom::fill$", buf.args[1].name + buf.args[1].meta.get("tdef", ""))) and buf.args[1].args[0] == T("selfmut", "") and \
-                buf.args[1].args[1].op == "call" and bool(re.search(r"ring::rand::SystemRandom::new$", buf.args[1].args[1].meta.get("tdef", "") + buf.args[1].args[1].name))
-            # fill's Result gates the Ok return
-            sites = [s2 for s2 in M.try_sites(v) if S.strip_result_wrappers(s2["operand"]).op == "call" and re.search(r"SecureRandom", S.strip_result_wrappers(s2["operand"]).name)]
-            okexits, _, _ = S.ok_exits(v)
-            gated = bool(sites) and v.cfg.must_pass(okexits, edges=[(s2["switch_block"], s2["cont"]) for s2 in sites])
-            ok = bool(whole and gated)
-            detail = "returned buffer: %s; fill result gates Ok: %s" % (M.show(buf)[:160] if buf is not None else "?", gated)
-        _f(out, "C10.R2", ok, b["id"], "whole buffer filled by the system CSPRNG", "try_new_random must return a buffer passed whole to SystemRandom::fill whose Result gates the Ok return; %s" % detail, ln, file=v.file(),
-           desc="Key::try_new_random: Ok(Key(buf)) with buf filled whole by SystemRandom, `?`-checked")
+        _f(out, "C10.R2", ok, b["id"], "whole buffer filled by the system CSPRNG", "try_new_random must return a buffer filled whole by SystemRandom::fill, and an RNG failure must be an Err; %s" % detail, ln, file=v.file(),
+           desc="Key::try_new_random: Ok(Key(buf)) with buf filled whole by SystemRandom; failure -> Err")
     for e in S.select(entries, "generic", "producer", "Local"):
         v = M.view(facts, e.body)
         N = M.Normalizer(facts, keep=S.KEEP)
